@@ -9,6 +9,7 @@ import (
 	"math"
 	"math/big"
 	"testing"
+	"verifharness/oracle/fr"
 
 	"github.com/onflow/crypto"
 	"github.com/onflow/crypto/hash"
@@ -70,6 +71,9 @@ func hostileInt(g *gen.G, label string, boundary int) int {
 	vals := []int{-1, 0, 1, 2, boundary - 1, boundary, boundary + 1, 254, 255, 256, 257, 1 << 16, math.MaxInt32, math.MinInt32, math.MaxInt64, math.MinInt64}
 	if g.Chance(label+"Free", 1, 4) {
 		return g.Int(label+"Val", -3, 300)
+	}
+	if g.Chance(label+"Edge", 1, 3) { // off-by-one faults live next to the documented bound
+		return boundary - 1 + g.Pick(label+"EdgePick", 3)
 	}
 	return vals[g.Pick(label+"Pick", len(vals))]
 }
@@ -726,7 +730,90 @@ func c09DKG(g *gen.G) {
 			real = append(real, unhex(hx))
 		}
 	}
+	// Scripted mode: the handlers' branches depend on the order in which well-formed messages of one dealer arrive
+	// (a complaint and its answer ahead of the verification vector, an answer with an invalid scalar after the
+	// complaint, the vector after the timeout, ...).  Independent random messages reach such orders rarely, so in
+	// half of the cases the instance is started first and most steps are drawn from the small alphabet of
+	// well-formed messages around one dealer and one complainer, in generated order.
+	srcIdx := dealer
+	if proto == sim.JointFeldman {
+		srcIdx = (me + 1) % n
+	}
+	var realVector, realShare []byte
+	for _, l := range src.proc.log {
+		var d int
+		var hx string
+		if _, err := fmt.Sscanf(l, "send %d %s", &d, &hx); err == nil && d == me {
+			realShare = unhex(hx)
+		} else if _, err := fmt.Sscanf(l, "bcast %s", &hx); err == nil {
+			if b := unhex(hx); len(b) > 0 && b[0] == sim.TagVector {
+				realVector = b
+			}
+		}
+	}
+	scripted := g.Chance("scripted", 1, 2)
+	scriptK := 0
+	if scripted {
+		scriptK = g.Pick("scriptComplainer", n)
+		g.Journal(fmt.Sprintf("DKG %v scripted: Start, dealer %d, complainer %d", proto, srcIdx, scriptK))
+		_ = inst.Start(gen.ExpandSeed(7, 32))
+		g.Class("DKG messages:scripted order of well-formed messages")
+	}
 	for i, m := 0, g.Int("dkgCalls", 1, 14); i < m; i++ {
+		if scripted && g.Chance("scriptStep", 4, 5) {
+			orig, private := srcIdx, false
+			var data []byte
+			step := g.Int("step", 0, 5)
+			switch step {
+			case 0:
+				orig, data = scriptK, []byte{sim.TagComplaint, byte(srcIdx)}
+			case 1, 5:
+				who := scriptK
+				if step == 5 {
+					who = me
+				}
+				var val []byte
+				switch g.Int("answerValue", 0, 4) {
+				case 0:
+					val = scalarBytes(big.NewInt(int64(1 + g.Int("answerVal", 0, 1000))))
+				case 1:
+					val = make([]byte, 32)
+				case 2:
+					val = bytes.Repeat([]byte{0xff}, 32)
+				case 3:
+					val = scalarBytes(fr.R)
+				default:
+					val = scalarBytes(new(big.Int).Sub(fr.R, big.NewInt(1)))
+				}
+				data = append([]byte{sim.TagAnswer, byte(who)}, val...)
+			case 2:
+				data = realVector
+			case 3:
+				data, private = realShare, true
+			default:
+				g.Journal(fmt.Sprintf("DKG %v scripted NextTimeout", proto))
+				_ = inst.NextTimeout()
+				continue
+			}
+			if data == nil {
+				continue
+			}
+			g.Journal(fmt.Sprintf("DKG %v scripted step %d orig %d data %x", proto, step, orig, data))
+			running := inst.Running()
+			var err error
+			if private {
+				err = inst.HandlePrivateMsg(orig, data)
+			} else {
+				err = inst.HandleBroadcastMsg(orig, data)
+			}
+			switch {
+			case !running && !crypto.IsDKGInvalidStateTransitionError(err):
+				g.Fatalf("%v scripted step %d on an instance that is not running returned %v, a state-transition error is documented", proto, step, err)
+			case running && err != nil:
+				g.Fatalf("%v scripted step %d (origin %d, %x) on a running instance returned %v", proto, step, orig, data, err)
+			}
+			continue
+		}
 		orig := hostileInt(g, "orig", n)
 		switch g.Int("origKind", 0, 5) {
 		case 0, 1:
